@@ -153,6 +153,14 @@ public:
                 ++result;
             }
         }
+        else if (isUTF16LowSurrogate(theChar) == true)
+        {
+            // A low surrogate that does not follow a high surrogate.
+            throwInvalidUTF16SurrogateException(
+                theChar,
+                0,
+                getMemoryManager());
+        }
 
         if(m_predicate(value))
         {
@@ -408,6 +416,14 @@ private:
 
                 ++result;
             }
+        }
+        else if (isUTF16LowSurrogate(ch) == true)
+        {
+            // A low surrogate that does not follow a high surrogate.
+            throwInvalidUTF16SurrogateException(
+                ch,
+                0,
+                getMemoryManager());
         }
 
         if(m_predicate(value))
